@@ -425,14 +425,30 @@ func copyChoices(m map[string]int) map[string]int {
 
 // ---- engine set-up ----
 
-func NewEngine(P *Program, cfg Config) (*Engine, error) {
+func NewEngine(P *Program, cfg Config, sets []string) (*Engine, error) {
 	e := &Engine{P: P, Cfg: cfg, overrideFn: map[*ssa.Function]*ssa.Function{}, intrinsics: map[string]intrinsicFn{},
 		initDone: map[*ssa.Package]bool{}, apiFuncs: map[*ssa.Function]string{}, initNotes: map[string]bool{}}
 	// a private named type standing for engine-made error values
 	tn := types.NewTypeName(token.NoPos, nil, "verifOpaqueError", nil)
 	e.opaqueErrT = types.NewNamed(tn, types.NewStruct(nil, nil), nil)
 	registerIntrinsics(e)
-	for target, repl := range P.Overrides {
+	if len(P.BadDirectives) > 0 {
+		return nil, fmt.Errorf("HARNESS-ERROR malformed directive: %v", P.BadDirectives)
+	}
+	merged := map[string]string{}
+	for _, set := range sets {
+		if set == "" {
+			continue
+		}
+		m, ok := P.Overrides[set]
+		if !ok {
+			return nil, fmt.Errorf("HARNESS-ERROR unknown override set %q", set)
+		}
+		for k, v := range m {
+			merged[k] = v
+		}
+	}
+	for target, repl := range merged {
 		tf := P.FuncByName(target)
 		rf := P.FuncByName(repl)
 		if tf == nil {
